@@ -101,6 +101,10 @@ macro_rules! dispatch {
                 let $p = &props::stale::C14Stale;
                 $body
             }
+            "C14u" => {
+                let $p = &props::uninit::MiriUninit;
+                $body
+            }
             other => {
                 eprintln!("unknown component {other}");
                 exit(2)
@@ -374,8 +378,8 @@ fn run_miri_parts(tier: Tier, seed: u64) -> MiriOutcome {
         Tier::Quick => 1,
         Tier::Thorough => 12,
     };
-    let plan: [(&'static str, u64, u64); 5] =
-        [("C14r", 40, 5), ("C14w", 32, 4), ("C13", 64, 3), ("C14p", 60, 3), ("C01", 12, 1)];
+    let plan: [(&'static str, u64, u64); 6] =
+        [("C14r", 40, 5), ("C14w", 32, 4), ("C13", 64, 3), ("C14p", 60, 2), ("C14u", 60, 1), ("C01", 12, 1)];
     let mut jobs = vec![];
     for (comp, per_job, njobs) in plan {
         for j in 0..njobs {
@@ -730,13 +734,13 @@ fn cmd_check(property: &str, tier: Tier) -> i32 {
         evaluations += m.runs;
         steps += m.steps;
         comp_json.push(Json::obj(vec![
-            ("component", Json::s("C14m (C14r + C14w + C13 + C14p + C01 cases under Miri)")),
+            ("component", Json::s("C14m (C14r + C14w + C13 + C14p + C14u + C01 cases under Miri)")),
             ("build", Json::s("miri")),
             ("runs", Json::U(m.runs)),
             ("distinct_nontrivial", Json::U(0)),
             ("wall_s", Json::F(m.wall_s)),
         ]));
-        rules.push("[C14m] the C14r/C14w histories plus C13 scanner cases, C14p tiny btor2/cnf/aag/aig/satlog parser drives under small chunks and boundary-targeted cuts, and C01 parser drives (separate seeded stream, smaller cases) executed under Miri in parallel interpreter processes; any Miri 'Undefined Behavior' report is a violation".to_string());
+        rules.push("[C14m] the C14r/C14w histories plus C13 scanner cases, C14p tiny btor2/cnf/aag/aig/satlog parser drives under small chunks and boundary-targeted cuts, C14u readers fed by a source that reports more bytes than it stored (every exposed byte is touched: initialised?), and C01 parser drives (separate seeded stream, smaller cases) executed under Miri in parallel interpreter processes; any Miri 'Undefined Behavior' report is a violation".to_string());
         real.push("Miri interpreter as memory oracle (out-of-bounds, invalid references, uninitialised reads, aliasing)".to_string());
         for (comp, run, what) in m.findings {
             let path = format!("{VD}/replays/{comp}-miri-{seed}-{run}.replay");
